@@ -36,6 +36,8 @@ class Checker(object):
         self.notes = []
         self.assumptions = []
         self.funcs_analysed = set()
+        self._index = {}
+        self.inst_count = {}
 
     # ---- declaring rules ----
     def rule(self, rid, analysis, desc, min_instances=1):
@@ -48,7 +50,17 @@ class Checker(object):
         fn = func.name if hasattr(func, "name") else func
         if hasattr(func, "id"):
             self.funcs_analysed.add(func.id)
-        self.obs.append(Ob(rule, key, bool(ok), site, fn, detail, nontrivial, path, self.rule_desc[rule][0]))
+        # the same construct seen through several template instantiations / units is one obligation
+        prev = self._index.get((rule, key))
+        if prev is not None:
+            self.inst_count[(rule, key)] += 1
+            if prev.ok and not ok:
+                prev.ok, prev.site, prev.func, prev.detail, prev.path = False, site, fn, detail, (path or [])
+            return bool(ok)
+        o = Ob(rule, key, bool(ok), site, fn, detail, nontrivial, path, self.rule_desc[rule][0])
+        self._index[(rule, key)] = o
+        self.inst_count[(rule, key)] = 1
+        self.obs.append(o)
         return bool(ok)
 
     def note(self, msg):
@@ -63,8 +75,8 @@ class Checker(object):
 
     def finish(self):
         counts = {}
-        for o in self.obs:
-            counts[o.rule] = counts.get(o.rule, 0) + 1
+        for (rule, _key), n in self.inst_count.items():
+            counts[rule] = counts.get(rule, 0) + n
         for rid, mn in self.rule_min.items():
             if counts.get(rid, 0) < mn:
                 raise AnalysisBroken("rule %s matched %d instance(s), fewer than the %d confirmed by hand on the reference tree "
@@ -113,6 +125,7 @@ def write_evidence(ck, counts, t0, violations, known_hits, broken=None):
             "units_parsed": len(prog.units) if prog is not None else 0,
             "functions_in_program": len(prog.funcs) if prog is not None else 0,
             "functions_examined_by_rules": len(ck.funcs_analysed),
+            "instantiations_examined": sum(ck.inst_count.values()),
             "call_sites_in_graph": n_edges,
             "per_rule": {rid: {"analysis": ck.rule_desc[rid][0], "rule": ck.rule_desc[rid][1], "instances": counts.get(rid, 0),
                                "min_instances": ck.rule_min[rid],
